@@ -2708,6 +2708,12 @@ impl KotoVm {
                 .module_cache
                 .borrow_mut()
                 .remove(&compile_result.path);
+            // The module's compiled chunk shouldn't be kept either, otherwise the failing version
+            // of the module would be run again even after its file has been changed.
+            self.context
+                .loader
+                .borrow_mut()
+                .remove_from_cache(&compile_result.path);
         }
 
         // Replace the VM's active exports map
